@@ -109,6 +109,9 @@ inductive NodeList where
   | cons (t : Node) (ts : NodeList)
 end
 
+deriving instance DecidableEq for Expr, ExprList
+deriving instance DecidableEq for Node, NodeList
+
 instance : Inhabited Node := ⟨.union .nil⟩
 instance : Inhabited Expr := ⟨.int 0⟩
 
